@@ -87,7 +87,7 @@ def run(tier, seed, rep):
                         v["nf"] = 1
                 vs += [variant("Explicit", ser=["KeepMe_AsIs", "k"]), variant("Ts", ts="Also Kept"),
                        variant("Both", ser=["ser_Only"], ts="To_String")]
-                cands.append(enum(did, vs, style=st, cis=bool(did % 2)))
+                cands.append(enum(did, vs, style=st, cis=bool(did % 2), aci=bool((did // 2) % 2)))
                 did += 1
         facts = pipe.domain_pass(cands, PROP)
         defs = [E for E in cands if facts[E["id"]]["wf"] and facts[E["id"]]["no"] and facts[E["id"]]["wfn"]]
